@@ -35,6 +35,34 @@ def emulsion_specs(draw):
             r = gen.r6(rbase * draw(st.floats(0, 2.5, **finite)))
         drops.append({"position": [float(x) for x in pos], "radius": float(r)})
     md = gen.r6(rbase * draw(st.sampled_from([0, 0, -1.0, -0.3, 0.3, 1.0, 3.0])))
+    if n >= 2 and not lattice and draw(st.integers(0, 2)) == 0:
+        # strongly polydisperse variant: every droplet gets a tiny satellite just outside its surface, so that the neighbour
+        # with the nearest *centre* is the harmless satellite while a farther, larger droplet may still be too close
+        eps = 0.02 * rbase
+        host = drops[: max(2, n // 2)]
+        drops = []
+        for d in host:
+            drops.append(d)
+            u = np.array([draw(st.floats(-1, 1, **finite)) for _ in range(dim)])
+            u = u / np.linalg.norm(u) if np.linalg.norm(u) > 1e-6 else np.eye(dim)[0]
+            gap = max(md, 0.0) + eps * draw(st.sampled_from([0.5, 1.0, 3.0]))
+            sat = np.array(d["position"]) + u * (d["radius"] + eps + gap)
+            drops.append({"position": [gen.r6(float(x)) for x in sat], "radius": gen.r6(eps)})
+    if not lattice and draw(st.integers(0, 5)) == 0:
+        # constructed "hidden overlap": a large and a medium droplet that are too close (surface to surface) although the neighbour
+        # with the nearest centre of every droplet - a tiny satellite placed on the far side - keeps its distance
+        eps = 0.02 * rbase
+        gap = max(md, 0.0) + eps * draw(st.sampled_from([0.5, 1.0, 3.0]))
+        R = rbase * draw(st.floats(1.0, 2.5, **finite))
+        rm = eps + gap + rbase * draw(st.floats(0.2, 1.0, **finite))
+        ov = draw(st.floats(0.05, 0.9, **finite)) * (rm - eps - gap) - md  # surface distance big-medium = -ov < md
+        u = np.array([draw(st.floats(-1, 1, **finite)) for _ in range(dim)])
+        u = u / np.linalg.norm(u) if np.linalg.norm(u) > 1e-6 else np.eye(dim)[0]
+        p0 = np.array([origin[a] + L[a] * draw(st.floats(-1, 2, **finite)) for a in range(dim)])
+        pm = p0 + u * (R + rm - ov)
+        quad = [(p0, R), (p0 - u * (R + eps + gap), eps), (pm, rm), (pm + u * (rm + eps + gap), eps)]
+        order = draw(st.permutations(range(4)))
+        drops = [{"position": [gen.r6(float(x)) for x in quad[i][0]], "radius": gen.r6(float(quad[i][1]))} for i in order]
     spec = {"kind": "emulsion", "dim": dim, "cls": cls, "droplets": drops, "min_distance": md}
     if use_grid:
         spec["grid"] = {"origin": origin, "shape": [4] * dim, "spacing": [l / 4 for l in L], "periodic": periodic}
@@ -93,7 +121,7 @@ class C10(Property):
     ]
 
     def budget(self, tier):
-        return {"examples": 3000 if tier == "quick" else 150000, "shards": 10 if tier == "quick" else 16}
+        return {"examples": 6000 if tier == "quick" else 150000, "shards": 10 if tier == "quick" else 16}
 
     def strategy(self, tier):
         return st.one_of(emulsion_specs(), emulsion_specs(), emulsion_specs(), random_specs())
